@@ -313,6 +313,19 @@ func scenC08(r *Run, job *Job) {
 	// inside the API server) when that process died and the reset completed
 	if r.Pass == 1 {
 		r.Known = zombieAPIRequest(r, w)
+		if r.Known == "" {
+			// another class: the goroutine of Server.Invoke that reserves and dispatches an invocation was descheduled
+			// for longer than the function timeout, i.e. it only got going after its own invocation had timed out
+			for _, h := range r.Holds {
+				if h.W != nil && h.HeldFor >= T && strings.Contains(h.W.Sig, "lambda/rapidcore.(*Server).Invoke") {
+					fn := h.W.Sig
+					if i := strings.Index(fn, "<"); i > 0 {
+						fn = fn[:i]
+					}
+					r.Known = "dispatch-stalled-past-timeout@" + fn
+				}
+			}
+		}
 	}
 	// ---- normalised trace of the suffix ----
 	trace := c08Trace(r, w, e, sufStart, step0, t0, T)
@@ -457,11 +470,12 @@ func pathNoID(p string) string { return uuidFind.ReplaceAllString(p, "ID") }
 func jsonUnmarshal(b []byte, v interface{}) { _ = json.Unmarshal(b, v) }
 
 // zombieAPIRequest classifies runs of the "zombie API request" family for the known-findings file: a goroutine was
-// held inside the API server (lambda/rapi: middleware, handlers) while a process died, and released afterwards -
+// held inside the API server (any frame of its stack in lambda/rapi: middleware, handlers - not lambda/rapid or
+// lambda/rapidcore) while a process died, and released afterwards -
 // i.e. a request of a dead process was still being handled when (or after) its generation was reset.
 func zombieAPIRequest(r *Run, w *World) string {
 	for _, h := range r.Holds {
-		if h.W == nil || !h.Released || !strings.Contains(h.W.Sig, "lambda/rapi") {
+		if h.W == nil || !h.Released || !(h.W.StackHas("lambda/rapi/") || h.W.StackHas("lambda/rapi.")) {
 			continue
 		}
 		for _, p := range w.Sup.All() {
